@@ -101,14 +101,26 @@ def run(ctx):
         if quick:
             args += ["--nuni", "2000", "--nmf", "1000", "--reps", "2"]
         else:
-            args += ["--nuni", "30000", "--nmf", "15000", "--reps", "3"]
+            args += ["--nuni", "20000", "--nmf", "10000", "--reps", "3"]
         if os.environ.get("C17_NUNI"):      # development aid (mutation runs)
             args[args.index("--nuni") + 1] = os.environ["C17_NUNI"]
     vlib.run(args, timeout=3000)
     cases = open(os.path.join(ctx.work, "cases.txt")).read().split("\n")[:-1]
     impl = open(os.path.join(ctx.work, "impl.txt")).read().split("\n")[:-1]
-    p = vlib.run([exe], input="\n".join(cases) + "\n", timeout=3000, stderr=None)
+    # the extracted model decides every case; a deterministic sub-sample is also printed as
+    # Coq terms and re-evaluated by vm_compute inside Coq (guards extraction + driver glue)
+    xv = os.path.join(ctx.work, "xcheck.v")
+    nuni_cases = sum(1 for c in cases if c.startswith("U "))
+    every = max(1, nuni_cases // (15 if quick else 100))
+    p = vlib.run([exe, "--coq", xv, str(every)], input="\n".join(cases) + "\n", timeout=3000, stderr=None)
     model = p.stdout.split("\n")[:-1]
+    nx = open(xv).read().count("Example xc_")
+    px = vlib.run(["timeout", "1500", "coqc", "-Q", os.path.join(vlib.COQ, "theories"), "Verif", xv], cwd=ctx.work, check=False)
+    xcheck_ok = px.returncode == 0
+    if not xcheck_ok:
+        ctx.violation({"kind": "extraction-disagrees-with-vm_compute", "coqc_output": px.stdout[-3000:],
+                       "what": "a case evaluated by the extracted OCaml model and by vm_compute inside Coq gave different results"},
+                      no_input=True)
     if not (len(cases) == len(impl) == len(model)):
         raise vlib.CheckFailure("line count mismatch cases=%d impl=%d model=%d" % (len(cases), len(impl), len(model)))
 
@@ -215,6 +227,7 @@ def run(ctx):
         "samples": samples,
         "input_distribution": dict(sorted(dist.items())),
         "model_undecided_MULTI": undecided,
+        "vm_compute_crosscheck": {"cases": nx, "agree": xcheck_ok},
         "modfile_exploration": dict(sorted(mf.items())),
         "known_finding_instances": dict(known),
         "mismatches": mismatches,
